@@ -55,10 +55,10 @@ VARIABLE m      \* the machine: [kid, ini, pl, pc, fr, A, acc, dz]
 -----------------------------------------------------------------------------
 (* Z_p *)
 Mod(x) == x % P
-Sq(x)  == (x * x) % P
+Sq(x)  == Mod(x * x)
 RECURSIVE PowP(_, _)
 PowP(b, e) == IF e = 0 THEN 1
-              ELSE IF e % 2 = 1 THEN (Sq(PowP(b, e \div 2)) * b) % P
+              ELSE IF (e % 2) = 1 THEN Mod(Sq(PowP(b, e \div 2)) * b)
               ELSE Sq(PowP(b, e \div 2))
 InvP(a) == PowP(Mod(a), P - 2)
 
@@ -66,8 +66,8 @@ InvP(a) == PowP(Mod(a), P - 2)
 RECURSIVE HashArgs(_, _, _)
 HashArgs(h, xs, i) ==
   IF i > Len(xs) THEN h
-  ELSE HashArgs(((h * 31337) % P + (Mod(xs[i]) * 12347) % P + 17) % P, xs, i + 1)
-Hash(f, xs) == HashArgs((f * 7919 + 10007) % P, xs, 1)
+  ELSE HashArgs(Mod(Mod(h * 31337) + Mod(Mod(xs[i]) * 12347) + 17), xs, i + 1)
+Hash(f, xs) == HashArgs(Mod(f * 7919 + 10007), xs, 1)
 
 RECURSIVE ProdSeq(_, _)
 ProdSeq(d, i) == IF i > Len(d) THEN 1 ELSE d[i] * ProdSeq(d, i + 1)
@@ -155,12 +155,12 @@ RECURSIVE SumVals(_, _, _, _)
 SumVals(xs, c, i, int) ==
   IF i > Len(xs) THEN 0
   ELSE IF int THEN Val(xs[i], c) + SumVals(xs, c, i + 1, int)
-  ELSE (Mod(Val(xs[i], c)) + SumVals(xs, c, i + 1, int)) % P
+  ELSE Mod(Mod(Val(xs[i], c)) + SumVals(xs, c, i + 1, int))
 RECURSIVE ProdVals(_, _, _, _)
 ProdVals(xs, c, i, int) ==
   IF i > Len(xs) THEN 1
   ELSE IF int THEN Val(xs[i], c) * ProdVals(xs, c, i + 1, int)
-  ELSE (Mod(Val(xs[i], c)) * ProdVals(xs, c, i + 1, int)) % P
+  ELSE Mod(Mod(Val(xs[i], c)) * ProdVals(xs, c, i + 1, int))
 
 ValBin(e, c) ==
   LET o == e.o
@@ -177,17 +177,17 @@ ValBin(e, c) ==
        CASE o = "+" -> a + b [] o = "-" -> a - b [] o = "*" -> a * b
          [] o = "/" -> IF b = 0 THEN 0 ELSE a \div b
   ELSE
-       CASE o = "+" -> (Mod(a) + Mod(b)) % P
-         [] o = "-" -> (Mod(a) + P - Mod(b)) % P
-         [] o = "*" -> (Mod(a) * Mod(b)) % P
-         [] o = "/" -> IF Mod(b) = 0 THEN 0 ELSE (Mod(a) * InvP(b)) % P
+       CASE o = "+" -> Mod(Mod(a) + Mod(b))
+         [] o = "-" -> Mod(Mod(a) + P - Mod(b))
+         [] o = "*" -> Mod(Mod(a) * Mod(b))
+         [] o = "/" -> IF Mod(b) = 0 THEN 0 ELSE Mod(Mod(a) * InvP(b))
 
 Val(e, c) ==
   CASE e.k = "lit"  -> e.v
     [] e.k = "sym"  -> LET r == Resolve(c, e.n) IN IF r.lvl > 0 /\ r.cell.t = "s" THEN r.cell.v ELSE 0
     [] e.k = "acc"  -> ValAcc(e, c)
     [] e.k = "mi"   -> Val(e.g, c)
-    [] e.k = "neg"  -> IF e.t = "I" THEN 0 - Val(e.x[1], c) ELSE (P - Mod(Val(e.x[1], c))) % P
+    [] e.k = "neg"  -> IF e.t = "I" THEN 0 - Val(e.x[1], c) ELSE Mod(P - Mod(Val(e.x[1], c)))
     [] e.k = "not"  -> B2I(Val(e.x[1], c) = 0)
     [] e.k = "bin"  -> ValBin(e, c)
     [] e.k = "sum"  -> SumVals(e.x, c, 1, e.t = "I")
@@ -306,7 +306,7 @@ Step(K, D, mm) ==
     [] ins.op \in {"assign", "aadd"} ->
          LET rv == Val(ins.rhs, c)
              v  == IF ins.op = "assign" THEN (IF ins.t = "I" \/ ins.t = "B" THEN rv ELSE Mod(rv))
-                   ELSE (IF ins.t = "I" THEN OldValue(c, ins.lhs) + rv ELSE (Mod(OldValue(c, ins.lhs)) + Mod(rv)) % P)
+                   ELSE (IF ins.t = "I" THEN OldValue(c, ins.lhs) + rv ELSE Mod(Mod(OldValue(c, ins.lhs)) + Mod(rv)))
              st == Store(mm, c, ins.lhs, v, IF ins.op = "assign" THEN "w" ELSE "u")
          IN [nx EXCEPT !.fr = st.fr, !.A = st.A, !.acc = Reads(ins.rhs, c) \o st.log,
                        !.dz = mm.dz \/ (ins.hd /\ DivZero(ins.rhs, c))]
